@@ -2,6 +2,7 @@ import CuriesVerif.Model.JsonFiles
 import CuriesVerif.Lemmas.Json
 import CuriesVerif.Lemmas.Sort
 import CuriesVerif.Properties.C14
+import CuriesVerif.Properties.C13
 
 /-!
 # C14 down to the characters of the JSON files
@@ -189,6 +190,155 @@ theorem C14_jsonld_bytes (ctx : List (Str × Loaders.JTerm)) (h : ScalarCtx ctx)
   | cons kv ctx ih =>
     simp only [List.map_cons, Function.comp, termOfValue_termValue]
     congr 1
+
+/-- **C14 (JSON-LD, on disk: the file is ASCII).** Whatever the prefixes and URI prefixes contain, the text
+`write_jsonld_context` writes consists of ASCII characters only (`ensure_ascii=True`): reading it back does not depend
+on the encoding the file was opened with, for any ASCII-compatible encoding. -/
+theorem C14_jsonld_ascii (ctx : List (Str × Loaders.JTerm)) : ∀ c ∈ jsonldText ctx, c < 128 :=
+  render_ascii ⟨some 4, true⟩ rfl (jsonldValue ctx) 0
+
+/-- the reader raises only for a `{"@prefix": true}` term without `@id` -/
+theorem jsonldPrefixMap_ok (ctx : List (Str × Loaders.JTerm)) (h : ∀ kv ∈ ctx, kv.2 ≠ .prefixDict none) :
+    Loaders.jsonldPrefixMap ctx = .ok (ctx.filterMap jsonldTaken) := by
+  have noerr : ∀ (l : List (Str × Loaders.JTerm)) (acc : List (Str × Str)),
+      (∀ kv ∈ l, kv.2 ≠ .prefixDict none) →
+      ∀ e, l.foldlM (fun acc kv =>
+        if kv.1.isEmpty then (.ok acc : Except Err _)
+        else if kv.1.head? == some 64 then .ok acc
+        else match kv.2 with
+          | .str s => .ok (acc ++ [(kv.1, s)])
+          | .prefixDict (some id) => .ok (acc ++ [(kv.1, id)])
+          | .prefixDict none => .error .keyError
+          | .other => .ok acc) acc ≠ .error e := by
+    intro l
+    induction l with
+    | nil => intro acc _ e h; simp [List.foldlM, pure, Except.pure] at h
+    | cons kv kvs ih =>
+      intro acc hl e h
+      rw [List.foldlM_cons] at h
+      have hkv := hl kv (by simp)
+      have hrest : ∀ x ∈ kvs, x.2 ≠ .prefixDict none := fun x hx => hl x (by simp [hx])
+      by_cases h1 : kv.1.isEmpty = true
+      · simp only [h1, if_true, bind, Except.bind] at h; exact ih acc hrest e h
+      · by_cases h2 : (kv.1.head? == some 64) = true
+        · simp only [h1, h2, if_true, Bool.false_eq_true, if_false, bind, Except.bind] at h
+          exact ih acc hrest e h
+        · cases hk : kv.2 with
+          | str s =>
+            simp only [h1, h2, hk, Bool.false_eq_true, if_false, bind, Except.bind] at h
+            exact ih _ hrest e h
+          | prefixDict o =>
+            cases o with
+            | none => exact hkv hk
+            | some id =>
+              simp only [h1, h2, hk, Bool.false_eq_true, if_false, bind, Except.bind] at h
+              exact ih _ hrest e h
+          | other =>
+            simp only [h1, h2, hk, Bool.false_eq_true, if_false, bind, Except.bind] at h
+            exact ih acc hrest e h
+  cases hres : Loaders.jsonldPrefixMap ctx with
+  | ok pm => rw [C13_jsonld ctx pm hres]
+  | error e =>
+    unfold Loaders.jsonldPrefixMap at hres
+    exact absurd hres (noerr ctx [] h e)
+
+/-- **C14 (JSON-LD, end to end on the file).** `write_jsonld_context` sorts the terms by key (`sort_keys=True`) and
+writes them as ASCII text; `json.load` followed by `from_jsonld`'s term filter, both as modelled, turn that text into
+a prefix map holding exactly the canonical pairs — plus every CURIE-prefix synonym when `include_synonyms=True` — in
+some order.  For all records with non-empty prefixes that do not start with `@` and strings of Unicode scalar values,
+plain and expanded form. -/
+theorem C14_jsonld_file (recs : List Record) (expand syn : Bool)
+    (hsafe : ∀ r ∈ recs, ∀ p ∈ r.allP, p.isEmpty = false ∧ p.head? ≠ some 64) (hs : ∀ r ∈ recs, r.ScalarStrs) :
+    ∃ ctx pm, jsonldRead (jsonldText (sortPairs (jsonldContext recs expand syn))) = some ctx ∧
+      Loaders.jsonldPrefixMap ctx = .ok pm ∧
+      pm.Perm (recs.flatMap fun r => (r.pfx, r.uri) :: (if syn then r.pSyn.map fun s => (s, r.uri) else [])) := by
+  have hmem : ∀ kv ∈ jsonldContext recs expand syn, ∃ r ∈ recs, kv.1 ∈ r.allP ∧
+      kv.2 = (if expand then Loaders.JTerm.prefixDict (some r.uri) else .str r.uri) := by
+    intro kv hkv
+    unfold jsonldContext at hkv
+    obtain ⟨r, hr, hm⟩ := List.mem_flatMap.mp hkv
+    refine ⟨r, hr, ?_⟩
+    rcases List.mem_cons.mp hm with rfl | hm
+    · exact ⟨by simp [Record.allP], rfl⟩
+    · cases syn with
+      | false => simp at hm
+      | true =>
+        simp only [if_true, List.mem_map] at hm
+        obtain ⟨s, hs', rfl⟩ := hm
+        exact ⟨by simp [Record.allP, hs'], rfl⟩
+  have hperm : (sortPairs (jsonldContext recs expand syn)).Perm (jsonldContext recs expand syn) := isort_perm _ _
+  have hsc : ScalarCtx (sortPairs (jsonldContext recs expand syn)) := by
+    intro kv hkv
+    obtain ⟨r, hr, hk, hv⟩ := hmem kv (hperm.mem_iff.mp hkv)
+    obtain ⟨h1, h2, h3, _, _⟩ := hs r hr
+    refine ⟨?_, ?_⟩
+    · simp only [Record.allP, List.mem_cons] at hk
+      rcases hk with e | e
+      · rw [e]; exact h1
+      · exact h3 _ e
+    · rw [hv]; cases expand <;> simpa using h2
+  have hne : ∀ kv ∈ sortPairs (jsonldContext recs expand syn), kv.2 ≠ .prefixDict none := by
+    intro kv hkv
+    obtain ⟨r, _, _, hv⟩ := hmem kv (hperm.mem_iff.mp hkv)
+    rw [hv]; cases expand <;> simp
+  refine ⟨_, _, C14_jsonld_bytes _ hsc, jsonldPrefixMap_ok _ hne, ?_⟩
+  have h1 := C14_jsonld recs expand syn hsafe
+  have h2 := jsonldPrefixMap_ok (jsonldContext recs expand syn) (fun kv hkv => by
+    obtain ⟨r, _, _, hv⟩ := hmem kv hkv
+    rw [hv]; cases expand <;> simp)
+  rw [h2] at h1
+  injection h1 with h1
+  rw [← h1]
+  exact hperm.filterMap _
+
+theorem sortKeysList_strs (l : List Str) : sortKeysList (l.map JV.str) = l.map JV.str := by
+  induction l with
+  | nil => rfl
+  | cons a as ih => simp [sortKeysList, JV.sortKeys, ih]
+
+theorem isort_of_sorted {α} (le : α → α → Bool) (l : List α) (h : l.Pairwise (fun a b => le a b = true)) :
+    isort le l = l := by
+  induction l with
+  | nil => rfl
+  | cons a as ih =>
+    have hp := List.pairwise_cons.mp h
+    simp only [isort, ih hp.2]
+    cases as with
+    | nil => rfl
+    | cons b bs => simp [insertBy, hp.1 b (by simp)]
+
+/-- the five keys of a record dictionary are written in the order `sort_keys=True` puts them in: sorting changes nothing -/
+theorem sortKeys_dictValue (d : RecordDict) : (dictValue d).sortKeys = dictValue d := by
+  obtain ⟨p, u, ps, us, pat⟩ := d
+  have k1 : strLe kPattern kPrefix = true := by decide
+  have k2 : strLe kPattern kPSyn = true := by decide
+  have k3 : strLe kPattern kUri = true := by decide
+  have k4 : strLe kPattern kUSyn = true := by decide
+  have k5 : strLe kPrefix kPSyn = true := by decide
+  have k6 : strLe kPrefix kUri = true := by decide
+  have k7 : strLe kPrefix kUSyn = true := by decide
+  have k8 : strLe kPSyn kUri = true := by decide
+  have k9 : strLe kPSyn kUSyn = true := by decide
+  have k10 : strLe kUri kUSyn = true := by decide
+  cases pat <;> cases ps <;> cases us <;>
+    simp only [dictValue, optMember, JV.sortKeys, sortKeysMembers, sortKeysList_strs, Option.map_some, Option.map_none,
+      List.nil_append, List.cons_append, sortPairs] <;>
+    (first | rfl | (congr 1; done) | (congr 1; apply isort_of_sorted; simp [k1, k2, k3, k4, k5, k6, k7, k8, k9, k10]))
+
+theorem sortKeys_epmValue (recs : List Record) : (epmValue recs).sortKeys = epmValue recs := by
+  unfold epmValue
+  simp only [JV.sortKeys]
+  congr 1
+  induction recs with
+  | nil => rfl
+  | cons r rs ih => simp only [List.map_cons, sortKeysList, sortKeys_dictValue, ih]
+
+/-- **C14 (extended prefix map: `sort_keys=True` is accounted for).** `epmText` — the text `C14_epm_bytes` speaks
+about — is what `json.dumps(..., sort_keys=True)` writes for the list of record dictionaries: sorting the keys of every
+object leaves the value as it is. -/
+theorem C14_epm_sorted (recs : List Record) :
+    render ⟨some 4, false⟩ 0 (epmValue recs).sortKeys = epmText recs := by
+  rw [sortKeys_epmValue]; rfl
 
 /-- Non-vacuity: a record with a quote, a line feed, a non-BMP character and a backslash in its strings reads back;
 the JSON-LD text of an expanded term with a non-ASCII, non-BMP prefix is pure ASCII and reads back. -/
